@@ -347,6 +347,7 @@ pub struct SignKnobs {
     pub honour_requirements: bool,
 }
 
+#[allow(dead_code)]
 pub struct Signed {
     pub msg: Message,
     pub date_form: DateForm,
